@@ -1,4 +1,4 @@
-SERVED = ["C01", "C02", "C03", "C04", "C05", "C06", "C07", "C08", "C09", "C10", "C12", "C15", "C13", "C14", "C16", "C17", "C18", "C19", "C20"]
+SERVED = ["C01", "C02", "C03", "C04", "C05", "C06", "C07", "C08", "C09", "C10", "C11", "C12", "C15", "C13", "C14", "C16", "C17", "C18", "C19", "C20"]
 HOOKS = {
     "guard": "PSYCHEC_VERIF",
     "enable": "harness/Makefile compiles /repo's sources with -DPSYCHEC_VERIF into /verif/.cache/build-<flavour>/; "
@@ -58,6 +58,19 @@ CHECKS = {
         "note": "Trusted: Coq kernel incl. vm_compute; translate/disamb.py (regular expressions over headers and Disambiguator.cpp; cross-checked behaviourally); hand-written catalogue/decision model C09Model.v; reference "
                 "symbol table gen/ambig.py; harness. Not modelled: the heuristic (guideline-imposition) strategy, the parser's creation of ambiguity nodes. Print Assumptions: closed under the global context.",
         "technique": "Coq proofs (nested induction over arbitrary trees; induction over block items with a depth invariant) + reflective coverage check on a table regenerated from the source + correspondence with a reference symbol table",
+    },
+    "C11": {
+        "text": "PARTIAL: the property quantifies over every well-typed program and the whole type checker; it is decided by differential testing against gcc with the property's flags: typed templates (typedef "
+                "chains, struct/union/enum, every pair of arithmetic operand types under every operator, pointer arithmetic and comparison incl. qualified/void/typedef'd pointees, member access, calls incl. "
+                "function pointers and variadics, assignments and initialisers incl. null pointer constants and void*, casts, conditionals, compound assignment) and the grammar-directed units of C04, kept when gcc "
+                "accepts them, must get no Error diagnostic from binder, resolver or type checker; failures are shrunk under the oracle.  Theorems, for the model of TypeChecker::typesAreCompatible over type terms "
+                "with typedef names on either side (tied to the compiled relation on every ordered pair of declared objects of generated programs, four flag settings): C11_compatibility_symmetric (every pair) and "
+                "C11_compatibility_reflexive (every error-free type) with qualifiers respected; with qualifiers ignored the same laws are kernel-evaluated over an enumerated family of ~1600 types (bounded, "
+                "labelled as such).  Both laws were false of the pinned tree (typedef name on the left; void vs tag; a const pointer against itself).",
+        "design_ref": "DESIGN.md section 6, C11",
+        "note": "Trusted: gcc 12 as oracle of well-typedness; generators; Coq kernel incl. vm_compute; hand-written model C11Model.v (function parameter list forms reduced to empty/non-empty); extraction; harness. "
+                "Not modelled: operator constraints and assignability. Print Assumptions: closed under the global context.",
+        "technique": "Coq proofs of the algebraic laws of the compatibility relation (induction on fuel/type structure) on a tied model + differential testing against gcc on generated well-typed programs",
     },
     "C12": {
         "text": "PARTIAL. Theorems about the model of TypedefNameTypeResolver::resolve over type terms, for EVERY environment of typedef declarations (any number, any chain length, any nesting of pointer/array/"
